@@ -581,7 +581,9 @@ class Interp:
         return ListV(self.ev(e) for e in n.elts)
 
     def ev_Set(self, n):
-        return ListV(self.ev(e) for e in n.elts)
+        r = ListV(self.ev(e) for e in n.elts)
+        r.is_set = True         # equality of set displays does not look at the order
+        return r
 
     def ev_Dict(self, n):
         d = DictV()
@@ -794,6 +796,19 @@ class Interp:
             if r is None:
                 return None
             return r if isinstance(op, ast.In) else not r
+        # set displays: equal when they have the same members, in any order (decided for literal members)
+        if isinstance(op, (ast.Eq, ast.NotEq)) and getattr(a, 'is_set', False) and getattr(b, 'is_set', False):
+            def key(v):
+                if isinstance(v, S) and v.t.is_literal():
+                    return ('s', v.t.text())
+                if isinstance(v, Lit):
+                    return ('n', v.v)
+                return None
+            ka, kb = [key(v) for v in a], [key(v) for v in b]
+            if None in ka or None in kb:
+                return None
+            r = set(ka) == set(kb)
+            return r if isinstance(op, ast.Eq) else not r
         # sequences: element-wise, three-valued
         if isinstance(op, (ast.Eq, ast.NotEq)) and isinstance(a, (Tup, ListV)) and isinstance(b, (Tup, ListV)) and \
                 not getattr(a, 'open', False) and not getattr(b, 'open', False) and \
